@@ -82,6 +82,10 @@ def polygon_vertices(rng, L, cx, cy, kind=None):
         angs = sorted(rng.uniform(0, 2 * math.pi) for _ in range(n))
         a, b = rng.uniform(0.2, 1), rng.uniform(0.2, 1)
         pts = [(a * math.cos(t), b * math.sin(t)) for t in angs]
+    elif kind == 'starsafe':        # star-shaped w.r.t. the centre (angular gaps < 180 deg): always a simple polygon
+        n = rng.randint(5, 24)
+        angs = [2 * math.pi * (k + rng.uniform(-0.4, 0.4)) / n for k in range(n)]
+        pts = [(r * math.cos(t), r * math.sin(t)) for t in angs for r in [rng.uniform(0.3, 1)]]
     elif kind == 'star':
         n = rng.randint(4, 40)
         angs = sorted(rng.uniform(0, 2 * math.pi) for _ in range(n))
